@@ -137,6 +137,11 @@ class CellParser(MCNP_Parser):
                 ret.padding.append(p.padding)
             else:
                 ret.padding = p.padding
+        elif "end_pad" in ret.nodes:
+            # keep what is already there, e.g., the closing parenthesis
+            for node in p.padding.nodes:
+                is_comment = isinstance(node, syntax_node.CommentNode)
+                ret.nodes["end_pad"].append(node, is_comment)
         else:
             ret.nodes["end_pad"] = p.padding
         return ret
